@@ -1,0 +1,120 @@
+//go:build verif
+
+package pool
+
+import (
+	"fmt"
+	"sync"
+
+	"github.com/plgd-dev/go-coap/v3/message"
+	"github.com/plgd-dev/go-coap/v3/message/codes"
+)
+
+// Lifecycle tracker for the verification harness (build tag verif only): every release and every
+// acquisition from the pool is logged with a small integer identity of the message object, and a
+// message sitting in the pool is poisoned so that a write to it after its release is noticed when
+// it is acquired again and a read of it shows sentinel values.
+
+const (
+	// VerifPoisonCode is the code of a message that sits in the pool.
+	VerifPoisonCode codes.Code = 0xffff
+	// VerifPoisonMID is the message ID of a message that sits in the pool.
+	VerifPoisonMID int32 = -0x21524111
+)
+
+// VerifPoisonToken is the token of a message that sits in the pool.
+var VerifPoisonToken = message.Token{0xde, 0xad, 0xbe, 0xef, 0xde, 0xad, 0xbe, 0xef}
+
+var verifState struct {
+	sync.Mutex
+	enabled bool
+	ids     map[*Message]int
+	trace   []string
+}
+
+// VerifTraceEnable switches lifecycle tracing on or off and clears the trace and the identities.
+func VerifTraceEnable(on bool) {
+	verifState.Lock()
+	defer verifState.Unlock()
+	verifState.enabled = on
+	verifState.ids = map[*Message]int{}
+	verifState.trace = nil
+}
+
+// VerifTraceTake returns and clears the lifecycle events logged so far:
+// "acq <id>", "rel <id>", "put <id>", "poison <id> ok|bad".
+func VerifTraceTake() []string {
+	verifState.Lock()
+	defer verifState.Unlock()
+	t := verifState.trace
+	verifState.trace = nil
+	return t
+}
+
+// VerifID returns the identity the tracker uses for m (assigning one on first sight).
+func VerifID(m *Message) int {
+	verifState.Lock()
+	defer verifState.Unlock()
+	return verifIDLocked(m)
+}
+
+func verifIDLocked(m *Message) int {
+	if verifState.ids == nil {
+		verifState.ids = map[*Message]int{}
+	}
+	id, ok := verifState.ids[m]
+	if !ok {
+		id = len(verifState.ids) + 1
+		verifState.ids[m] = id
+	}
+	return id
+}
+
+func verifLog(format string, m *Message, a ...any) {
+	verifState.Lock()
+	defer verifState.Unlock()
+	if !verifState.enabled {
+		return
+	}
+	args := append([]any{verifIDLocked(m)}, a...)
+	verifState.trace = append(verifState.trace, fmt.Sprintf(format, args...))
+}
+
+func verifEnabled() bool {
+	verifState.Lock()
+	defer verifState.Unlock()
+	return verifState.enabled
+}
+
+func verifOnAcquire(_ *Pool, m *Message) {
+	if !verifEnabled() {
+		return
+	}
+	intact := m.msg.Code == VerifPoisonCode && m.msg.MessageID == VerifPoisonMID &&
+		len(m.msg.Token) == len(VerifPoisonToken) && string(m.msg.Token) == string(VerifPoisonToken) &&
+		len(m.msg.Options) == 0 && m.msg.Payload == nil && m.body == nil && !m.isModified
+	if intact {
+		verifLog("poison %d ok", m)
+	} else {
+		verifLog("poison %d bad", m)
+	}
+	// back to the state Reset() leaves
+	m.msg.Code = codes.Empty
+	m.msg.MessageID = -1
+	m.msg.Token = nil
+	verifLog("acq %d", m)
+}
+
+func verifOnRelease(_ *Pool, m *Message) {
+	verifLog("rel %d", m)
+}
+
+func verifBeforePut(_ *Pool, m *Message) {
+	if !verifEnabled() {
+		return
+	}
+	m.msg.Code = VerifPoisonCode
+	m.msg.MessageID = VerifPoisonMID
+	m.msg.Token = VerifPoisonToken
+	verifLog("put %d", m)
+}
